@@ -21,5 +21,13 @@ fn main() {
         .warnings(false)
         .compile("fathom");
     println!("cargo:rustc-cfg=jgilchrist_tcheran_verif");
+    // The occupied-slot counter of the transposition table is a public field today and C19 reads it
+    // for an exact comparison; if a change to the engine hides or removes it, the harness must still
+    // build (the check then relies on occupancy() alone), so its presence is probed here.
+    println!("cargo::rustc-check-cfg=cfg(tt_pub_occupied)");
+    let tt = fs::read_to_string(format!("{src}/engine/transposition_table.rs")).unwrap_or_default();
+    if tt.contains("pub occupied:") {
+        println!("cargo:rustc-cfg=tt_pub_occupied");
+    }
     println!("cargo::rustc-check-cfg=cfg(jgilchrist_tcheran_verif)");
 }
